@@ -47,6 +47,28 @@ def table_script(r):
     N = sum(o * s for _, o, s in sites)
     for i in (0, max(N - 1, 0), N, N + 3):
         lines.append("getinfo %d" % i)
+    k = r.below(3)
+    if k == 1:
+        # the same lattice indexed again in the other ordering mode (a second IndexClassification object in the process)
+        mode = int(lines[len(sites)].split()[1])
+        lines.append("index %d" % (1 - mode))
+        for _ in range(5):
+            l, o, s = r.choice(sites)
+            lines.append("getindex %s %d %d" % (pipeline.lab(l), r.range(0, o + 1), r.range(0, s + 1)))
+        lines.append("getinfo %d" % r.below(max(N, 1)))
+    elif k == 2 and len(sites) >= 2:
+        # a second lattice in the same process that reuses the labels with exchanged shapes
+        lines.append("newlattice")
+        shapes = [(o, s) for _, o, s in sites]
+        shapes = shapes[1:] + shapes[:1]
+        sites2 = [(l, o, s) for (l, _, _), (o, s) in zip(sites, shapes)]
+        lines += ["site %s %d %d" % (pipeline.lab(l), o, s) for l, o, s in sites2]
+        lines.append("index %d" % r.below(2))
+        for _ in range(5):
+            l, o, s = r.choice(sites2)
+            lines.append("getindex %s %d %d" % (pipeline.lab(l), r.range(0, o + 1), r.range(0, s + 1)))
+        N2 = sum(o * s for _, o, s in sites2)
+        lines.append("getinfo %d" % r.below(max(N2, 1)))
     return lines, sites
 
 
